@@ -77,6 +77,17 @@ CHECKS["C17"] = dict(
     technique="TLA+ stack machine + Level-B call generator model; TLC exhaustive MC with case emission; replay + TLC trace validation",
     ref="5/C17")
 
+CHECKS["C18"] = dict(
+    text="spec/Retarget.tla models the module as finite relations (symbols internal/external, use sites: control-flow operands, code references, data words, CFI personality/LSDA, symbolForwarding; attributes; PIE; ABI) and defines Expected(M, map, rules): every mention of a key replaced once (chains not transitive), addend kept, attributes converted by the unique matching ABI rule, exactly the branch/call edges of the instruction whose operand was a key moved, return edges following the calls, refusals. TLC checks 17 theorems of Expected on every enumerated configuration and emits each as a case; the cases are replayed through retarget_symbol_uses + apply() and spec/TraceRetarget.tla judges Expected(observed pre) against the observed post with seven C18_* clauses.",
+    note="The pre-state is an identical build after apply() without the retargets; a conformance predicate binds the rendered module to the spec's module. Cases are a stratified seeded sample of the MC states; one control-flow instruction per block; the attribute rules are written from the psABI documents and matched abi.py on every case. KF-C18-1 (returns do not follow a retargeted call) and KF-C18-2 (MIPS32 jal not recognised as control flow) are open.",
+    technique="TLC exhaustive MC of a relational TLA+ spec with case emission; real-library replay; TLC trace judgement",
+    ref="5/C18")
+CHECKS["C19"] = dict(
+    text="spec/DelSym.tla models every symbol-carrying table, the CFI directives and the expressions as relations; Expected(D, del) and Outcome cover null-UUID CFI with DW_EH_PE_omit, SymbolUsesRemainingError iff an unforced deleted symbol is used, version GC with base definitions kept, libraries dropped iff emptied, and the force-merge rule. TLC checks the theorems (no trace left, only that, idempotence, stepwise = at once, version tables well-formed) in three modes (pairwise table membership, exhaustive version sharing, exhaustive three-symbol lattice); cases are replayed through delete_symbol + apply() and judged by nine C19_* clauses including a protobuf round trip.",
+    note="Sampled replay of the MC states; the lattice is exhaustive over 3-4 representative features, not all 14. A base version definition with flags BASE|WEAK is excluded from the enumeration (observation, DESIGN.md 6).",
+    technique="TLC exhaustive MC of a relational TLA+ spec with case emission; real-library replay; TLC trace judgement",
+    ref="5/C19")
+
 PENDING = {}
 
 
